@@ -31,7 +31,11 @@ Definition step (G : Q) (c : cell) (o : op) : cell :=
   | Offset off => if Qlt_le_dec (used c) off then {| used := off; entries := entries c |} else c
   | Book t cap =>
       let a := avail G c in
-      if Qlt_le_dec 0 a then
+      (* a slot that carries a task marker (some booking happened) but has all of its seconds free
+         again is refused by ResourceScenario.available (marker set and available = slot length);
+         unreachable for the scheduler, whose releases always keep a positive amount *)
+      if match entries c with [] => false | _ => if Qlt_le_dec 0 (used c) then false else true end then c
+      else if Qlt_le_dec 0 a then
         let amount := match cap with Some m => Qmin a m | None => a end in
         {| used := used c + amount; entries := entries c ++ [(t, amount)] |}
       else c
